@@ -105,7 +105,7 @@ async def perform(ws, op, script):
             # e.g. a relay: a send to ANOTHER connection's socket failed; this connection's client is still there
             return ('raise_out', falcon.WebSocketDisconnected(op[1]))
     except Exception as e:  # noqa
-        return ('exc', _exc_name(e))
+        return ('exc', _exc_name(e), getattr(e, 'code', None))
     raise AssertionError(op)
 
 
@@ -594,6 +594,15 @@ def run_case(case):
             elif tag not in allowed:
                 raise Violation('ws_wrong_outcome', 'step %d %r: got %r, reference state machine allows %r (state %s, gone=%s); %s'
                                 % (i, op, got, sorted(allowed), model.state, model.gone, ctx()))
+            if (got[0] == 'exc' and tag == 'WebSocketDisconnected' and op[0].startswith('receive') and len(got) > 2
+                    and case['fail_send_at'] is None and case['disconnect'] is not None
+                    and not any(o[0] == 'close' for o in ops[:i]) and all(o[0] == 'ok' for o in script.outcomes[:i])):
+                # nothing failed before and the app did not close: the only way this connection can have ended is the
+                # client's disconnect, seen first by this receive: the error reports ITS code
+                want_code = 1000 if case['disconnect'] == 'bare' else case['disconnect']
+                if got[2] != want_code:
+                    raise Violation('ws_disconnect_code', 'step %d %r raised WebSocketDisconnected(code=%r), the client disconnected with '
+                                    'code %r; %s' % (i, op, got[2], want_code, ctx()))
             if getattr(model, 'ambiguous', False):
                 # two documented errors applied; follow what the implementation chose
                 if tag == 'WebSocketDisconnected':
